@@ -379,6 +379,56 @@ def numeric_ground_state(mk, cls, L):
     mk.eq("converged energy == exact ground energy", np.real(e), ev[0], tol=1e-6)
 
 
+_CM = [{"method": m, "seq": q, "cap": c, "_tiers": ("quick", "thorough") if (q == "RL" and c in (3, 8)) else ("thorough",)}
+       for m in ("svd", "svd:eig", "svds", "eig", "isvd") for q in ("R", "RL") for c in (2, 3, 8)]
+
+
+@obligation(PROP, params=_CM, numeric=True, tiers=("quick", "thorough"), timeout_s=300)
+def compress_method_options_numeric(mk, method, seq, cap):
+    """LABELLED NUMERIC-ONLY SUPPLEMENT (third round).  DMRG2 with every documented opts['bond_compress_method'] x sweep sequence x
+    bond cap (below, at an odd value inside, and above the exact rank) on a genuinely complex Hermitian MPO, cutoffs=0.0 exactly:
+    the reported energy is the Rayleigh quotient of the returned state, never below the exact ground energy; the returned state
+    respects the cap on EVERY bond; with a cap admitting the exact ground state the total energy never rises between local
+    updates and the converged energy is the exact ground energy.  The split itself is decided symbolically for every method x
+    absorb by C05 (split_exact); here the option is threaded through the real driver with real LAPACK / ARPACK."""
+    if mk.sym:
+        mk.note("numeric-only: option grid of the real DMRG2 driver (iterative eigensolver, real decompositions)")
+        mk.same("numeric-only obligation", True, True)
+        return
+    import warnings
+    L = 6
+    B = qtn.SpinHam1D(S=1 / 2)
+    for c_, ops in ((1.0, "XX"), (0.7, "YY"), (0.4, "ZZ"), (0.5, "XY"), (-0.3, "YZ")):
+        B += c_, ops[0], ops[1]
+    B += 0.2, "Y"
+    B += 0.1, "Z"
+    H = B.build_mpo(L)
+    Hd = np.asarray(H.to_dense())
+    ev = np.linalg.eigvalsh(Hd)
+    p0 = qtn.MPS_rand_state(L, min(cap, 8), dtype="complex128", seed=11)
+    with warnings.catch_warnings():
+        warnings.simplefilter("ignore")
+        dm = qtn.DMRG2(H, bond_dims=[cap], cutoffs=0.0, p0=p0)
+        dm.opts["bond_compress_method"] = method
+        try:
+            dm.solve(tol=1e-11, max_sweeps=8, sweep_sequence=seq, verbosity=0)
+        except (ValueError, TypeError, NotImplementedError, KeyError) as e:
+            mk.note(f"bond_compress_method={method!r} rejected by the driver: {type(e).__name__}: {str(e)[:80]}")
+            mk.same("rejected option (documented: the statement allows a rejection)", True, True)
+            return
+    st = dm.state
+    v = np.asarray(st.to_dense()).ravel()
+    nrm = np.vdot(v, v).real
+    tag = f"[numeric-only] DMRG2(bond_compress_method={method!r}, sweep_sequence={seq!r}, bond_dims={cap})"
+    mk.eq(f"{tag}: energy == dense <s|H|s> / <s|s> of the returned state", np.real(dm.energy), np.vdot(v, Hd @ v).real / nrm, tol=1e-7)
+    mk.same(f"{tag}: energy not below the exact ground energy", bool(np.real(dm.energy) >= ev[0] - 1e-8), True)
+    mk.same(f"{tag}: every bond of the returned state <= cap", bool(st.max_bond() <= cap), True)
+    if cap >= 8:
+        tot = np.concatenate([np.atleast_1d(np.real(t)) for t in dm.total_energies])
+        mk.same(f"{tag}: untruncated run, the total energy never rises between local updates", bool(np.max(np.diff(tot)) <= 1e-8), True)
+        mk.eq(f"{tag}: converged energy == exact ground energy", np.real(dm.energy), ev[0], tol=1e-6)
+
+
 def _bra_is_conj_ket(mk, dm, where):
     """tensor by tensor: same shape, bra data == conj(ket data), and the energy network
     (which views these tensors) denotes <k|H k> of the held ket"""
